@@ -243,10 +243,11 @@ impl Parser {
                         let span = node.as_span();
                         let mut ident = Self::ident(node).to_err_vec()?;
 
+                        // the counter starts as the lower bound, so it has the type of the lower bound
                         ident
                             .link_force_no_inherit(
                                 input.user_data(),
-                                Cow::Owned(TypeLayout::Native(NativeType::Int)),
+                                Cow::Owned(start_ty.disregard_distractors(false).clone()),
                             )
                             .to_err_vec()?;
 
@@ -306,6 +307,20 @@ impl Parser {
                 ),
             )]);
         };
+
+        if let Some((_, name_span)) = &name {
+            // a named counter is visible to the body: every step must leave a value of the counter's own type in it
+            if !start_ty.eq_complex(
+                &step_output_type,
+                &TypecheckFlags::<&ClassType>::classless(),
+            ) {
+                return Err(vec![new_err(
+                    *name_span,
+                    &input.user_data().get_source_file_name(),
+                    format!("this counter starts as `{start_ty}`, but applying a step of `{rhs}` to it produces `{step_output_type}`; give the bounds and the step the same numeric type"),
+                )]);
+            }
+        }
 
         if !start_ty.is_numeric(true) {
             return Err(vec![new_err(
